@@ -1,6 +1,7 @@
 /-
 C02 — Fills follow price-time priority; order comparison is a strict total order.
 -/
+import PamsLemmas.SourceTie
 import PamsLemmas.MarketLemmas
 import Mathlib.Data.Nat.Basic
 
@@ -130,5 +131,13 @@ def o1 : Order Nat := { id := 0, agent := 1, isBuy := true, price := some 100, v
 def o2 : Order Nat := { id := 1, agent := 1, isBuy := true, price := some 100, vol := 1, placedAt := 0, ttl := none }
 def o3 : Order Nat := { id := 2, agent := 1, isBuy := true, price := none, vol := 1, placedAt := 3, ttl := none }
 example : o1.lt o2 = true ∧ o3.lt o1 = true ∧ o2.lt o1 = false ∧ o1.gt o3 = true := by decide
+
+/-- (T) `Order._gt_lt` in the current sources: for every `X if gt else Y` the operators are the ones
+the model `gtLt` transcribes (earlier time / lower id first; higher bid, lower ask first; market
+before limit) -/
+theorem source_gt_lt :
+    PamsGen.gtLtPairs =
+      [("True", "False"), ("False", "True"), (">", "<"), (">", "<"), ("False", "True"),
+       ("True", "False"), ("<", ">"), (">", "<")] := by decide
 
 end Pams.C02
